@@ -548,3 +548,18 @@ Definition analog_sync (d : dict) : option (Z * Z) :=
       end
   | Some _ => Some (0, 0)
   end.
+
+(* ---------------------------------------------------------------- round 4 additions *)
+(* _get_max_int_from_meta(md, neuropixel_version): `neuropixel_version or <version of md>`;
+   the explicit argument, when given, replaces the probe generation read from the dictionary *)
+Definition max_int_with (ov : option vers) (d : dict) : option Z :=
+  let get_or dflt := match lookup (lit "imMaxInt") d with
+                     | Some v => py_int v | None => Some dflt end in
+  if is_imec d then
+    match (match ov with Some v => Some v | None => version d end) with
+    | None => None
+    | Some v => if is_np2 v
+                then match lookup (lit "imMaxInt") d with Some x => py_int x | None => None end
+                else get_or 512
+    end
+  else get_or 32768.
